@@ -38,6 +38,8 @@ inductive ReqKind where
   | ping | lend | probe (oid : Nat)
   /-- the client lets go of an object it was lent (`HANDLE_DEL`) -/
   | drop (oid : Nat)
+  /-- a call after which the service instance's `on_disconnect` will not return until released (`Op.releaseHook`) -/
+  | arm
   deriving DecidableEq, Repr, Inhabited
 
 inductive Reply where
@@ -80,6 +82,9 @@ inductive Phase where
   | queued
   /-- a thread is blocked in `stream.read` on an incomplete frame of this client -/
   | blocked
+  /-- pool: a worker has closed the connection (socket closed: the descriptor NUMBER is free again) and is still inside
+  the service's `on_disconnect`; `_drop_connection(fd)` has not run yet, the `fd_to_conn` entry is still there -/
+  | closing
   /-- the server has finished with this client -/
   | done
   deriving DecidableEq, Repr, Inhabited
@@ -115,6 +120,10 @@ structure Cli where
   inFd : Bool := false
   /-- pool: its descriptor is registered with `poll_object` -/
   polled : Bool := false
+  /-- its service's `on_disconnect` blocks until released -/
+  slowHook : Bool := false
+  /-- the client whose accepted socket was given this one's descriptor number after this one's socket was closed -/
+  usurper : Option Nat := none
   deriving Repr, Inhabited
 
 structure Cfg where
@@ -123,6 +132,9 @@ structure Cfg where
   auth : Bool
   /-- pool: `nbThreads` -/
   nb : Nat
+  /-- pool: does the end-of-stream path (`_serve_requests` → `_drop_connection`) remove only the connection it was serving
+  (the repaired code: by identity), or whatever `fd_to_conn` holds under that descriptor number by then (`false`) -/
+  spare : Bool := true
   deriving DecidableEq, Repr, Inhabited
 
 structure St where
@@ -186,6 +198,7 @@ def answer (c : Cli) (seq : Nat) (r : ReqKind) (nextObj : Nat) : Cli × Nat :=
   | .probe oid =>
     ({ c with replies := (seq, if c.table.contains oid then .resolved else .keyError) :: c.replies }, nextObj)
   | .drop oid => ({ c with replies := (seq, .done) :: c.replies, table := c.table.filter (· != oid) }, nextObj)
+  | .arm => ({ c with replies := (seq, .done) :: c.replies, slowHook := true }, nextObj)
 
 /-- `Connection.serve_all` run by the client's own thread (threaded, one-shot) or child process
 (forking), on what the client has sent: returns the client record (phase `idle`, `blocked` or `done`)
@@ -331,7 +344,11 @@ def freeWorkers (s : St) : Nat := s.cfg.nb - s.blocked.length
 blocked on it, or back with the poller (`_add_inactive_connection`) -/
 def poolPlace (s : St) (k : Nat) (r : Cli × Nat) : St :=
   match r.1.phase with
-  | .done => { (s.set k { r.1 with inFd := false }) with nextObj := r.2 }
+  | .done =>
+    -- `conn.poll()` raised EOFError: inside it the connection was closed (socket closed, then `on_disconnect`); with a
+    -- hook that blocks, the worker is still in there and `_drop_connection(fd)` has not run
+    if r.1.slowHook then { (s.set k { r.1 with phase := .closing }) with nextObj := r.2, blocked := k :: s.blocked }
+    else { (s.set k { r.1 with inFd := false }) with nextObj := r.2 }
   | .blocked => { (s.set k r.1) with nextObj := r.2, blocked := k :: s.blocked }
   | _ => { (s.set k { r.1 with polled := true }) with nextObj := r.2 }
 
@@ -352,7 +369,33 @@ def poolWake (s : St) (k : Nat) : St :=
 
 /-- the client a worker is blocked on goes away: EOFError, `_drop_connection`, the worker is free again -/
 def poolUnblock (s : St) (k : Nat) : St :=
-  drain s.queue { (s.set k { endServe (s.cli k) with inFd := false }) with blocked := rm k s.blocked }
+  if (s.cli k).slowHook then s.set k { endServe (s.cli k) with phase := .closing }
+  else drain s.queue { (s.set k { endServe (s.cli k) with inFd := false }) with blocked := rm k s.blocked }
+
+/-- who holds the `fd_to_conn` entry under the descriptor number client `k` was given: `k` itself, or the client whose
+socket got the number after `k`'s was closed, and so on -/
+def holder : Nat → St → Nat → Option Nat
+  | 0, _, _ => none
+  | f + 1, s, k =>
+    if (s.cli k).inFd then some k
+    else match (s.cli k).usurper with
+      | some u => holder f s u
+      | none => none
+
+/-- `_drop_connection` as it hits a connection it was not called for: popped from the table and closed; the poller then
+finds its descriptor invalid and unregisters it -/
+def dropVictim (c : Cli) : Cli := { endServe c with inFd := false, polled := false }
+
+/-- the worker comes back from the blocking `on_disconnect` of client `k` and drops "its" descriptor -/
+def poolRelease (s : St) (k : Nat) : St :=
+  drain s.queue
+    { (if s.cfg.spare then s.set k { s.cli k with phase := .done, inFd := false, slowHook := false }
+       else match holder (s.ids.length + 1) s k with
+         | some v =>
+           if v = k then s.set k { s.cli k with phase := .done, inFd := false, slowHook := false }
+           else (s.set v (dropVictim (s.cli v))).set k { s.cli k with phase := .done, inFd := false, slowHook := false }
+         | none => s.set k { s.cli k with phase := .done, inFd := false, slowHook := false }) with
+      blocked := rm k s.blocked }
 
 /-- `self.clients.clear()` -/
 def untrackAll (s : St) : St := s.mapCli (fun c => { c with tracked := false })
@@ -463,6 +506,11 @@ inductive Op where
   | serverClose
   /-- late credentials of a client that connected with `Cred.silent` -/
   | creds (k : Nat) (c : Cred)
+  /-- a new well-behaved client whose accepted socket is given the descriptor number that client `j`'s socket, closed by
+  now, had (the kernel hands out the lowest free number) -/
+  | connectReuse (k j : Nat)
+  /-- the blocking `on_disconnect` of client `k` returns -/
+  | releaseHook (k : Nat)
   deriving Repr, Inhabited
 
 /-- may the client still speak the protocol -/
@@ -502,6 +550,18 @@ def step (s : St) : Op → Except Err (St × Obs)
     if (s.cli k).phase == .absent || !(s.cli k).clientOpen || (s.cli k).cred != .silent || !s.cfg.auth ||
        !(c == .good || c == .bad) then .error .valueError
     else .ok (supply s k c, .none)
+  | .connectReuse k j =>
+    -- (defined only while the accept loop is free: the number is assigned by `accept()`)
+    if (s.cli k).phase != .absent || k == j || !((s.cli j).phase == .closing || (s.cli j).phase == .done) ||
+       (s.cli j).srvFd || (s.cli j).usurper.isSome || !canAccept s then .error .valueError
+    else
+      -- `fd_to_conn[fd] = conn` of the newcomer replaces whatever entry was left under that number
+      .ok (acceptAll (s.ids ++ [k])
+            { ((s.set j { s.cli j with inFd := false, usurper := some k }).set k
+                { cred := .good, phase := .backlog, clientOpen := true }) with ids := s.ids ++ [k] }, .ok)
+  | .releaseHook k =>
+    if s.cfg.kind != .pool || (s.cli k).phase != .closing then .error .valueError
+    else .ok (poolRelease s k, .none)
   | .serverClose =>
     if s.cfg.kind = .pool then
       (match poolClose s with
